@@ -507,6 +507,7 @@ func runC10(c *Ctx) {
 	c.Floors["T"] = 500
 
 	entries := c.parseJumpTable("kvm/instruction_set.go", "newV1InstructionSet")
+	alias := newAliasAn(c.P)
 	if len(entries) < 130 {
 		c.Unres("T", "jump table", fmt.Sprintf("parsed %d entries from newV1InstructionSet, expected about 139", len(entries)))
 		return
@@ -673,6 +674,29 @@ func runC10(c *Ctx) {
 			}
 		}
 		c.Check("T", "opcode "+e.Op+"/halts, jumps, returns, reverts, writes flags match the opcode class", strings.Join(got, ",") == want, e.Pos, 1, "flags {"+strings.Join(got, ",")+"}, specification {"+want+"}")
+		// An instruction whose result becomes the interpreter's return data while the frame keeps running must hand
+		// over a buffer of its own: one that shares the frame memory's backing array changes under later memory writes
+		// (MSTORE, the call's own output copy), and RETURNDATACOPY then reads something the callee never returned.
+		if e.Flags["returns"] && !e.Flags["halts"] && !e.Flags["reverts"] {
+			var seeds []ssa.Value
+			for _, in := range findInstrs(fn, CallTo(`^\(\*kvm\.Memory\)\.GetPtr$`, "")) {
+				if v, ok := in.(ssa.Value); ok {
+					seeds = append(seeds, v)
+				}
+			}
+			al := alias.forward(fn, seeds)
+			bad := ""
+			for _, in := range findInstrs(fn, AnyReturn()) {
+				if r := in.(*ssa.Return); len(r.Results) > 0 && al[r.Results[0]] {
+					bad = describeInstr(in) + " at " + c.P.Pos(instrPos(in))
+				}
+			}
+			why := ""
+			if bad != "" {
+				why = bad + ": the returned buffer may be the slice obtained from Memory.GetPtr (" + aliasWhy(alias, fn, al) + "); it is kept as the interpreter's return data while the frame goes on writing its memory"
+			}
+			c.Check("T", "opcode "+e.Op+"/the retained return data does not share the frame memory's backing array", bad == "", e.Pos, len(seeds), why)
+		}
 	}
 	for _, op := range []string{"STOP", "ADD", "SSTORE", "CALL", "STATICCALL", "REVERT", "SELFDESTRUCT", "JUMP", "JUMPI", "PUSH1", "PUSH32", "DUP16", "SWAP16", "LOG4", "CHAINID"} {
 		c.Check("T", "opcode "+op+"/present in the instruction set", seenOps[op], token.NoPos, 1, "")
